@@ -34,6 +34,43 @@ func (v *version) opScore(b []byte) {
 	}))
 }
 
+// corner: the well-formed object in which every metric takes its value number k (counted from the end when k exceeds the list)
+func (v *version) corner(k int) []byte {
+	b := make([]byte, v.n)
+	for _, mt := range v.metrics {
+		val := mt.values[len(mt.values)-1]
+		if k < len(mt.values) {
+			val = mt.values[k]
+		}
+		if nb, err := v.set(b, mt.abv, val); err == nil {
+			b = nb
+		}
+	}
+	return b
+}
+
+// H ver start target | scores of the object reached from `start` by Set-ting every metric to target's value (format of F)
+func (v *version) opScoreHist(a0, b []byte) {
+	emit("H "+v.name+" "+hexB(a0)+" "+hexB(b), guard(func() string {
+		sc, fb := v.histscores(a0, b)
+		parts := make([]string, len(sc))
+		for i, x := range sc {
+			parts[i] = bits(x)
+		}
+		r := strings.Join(parts, " ")
+		if v.rating != nil {
+			for i, x := range sc {
+				if i < 3 {
+					if _, err := v.rating(x); err != nil {
+						r += " rating-rejects"
+					}
+				}
+			}
+		}
+		return r + " " + v.gets(fb)
+	}))
+}
+
 // M ver obj abv v1 v2 | scores with abv:=v1, scores with abv:=v2   (C12 monotonicity pairs)
 func (v *version) opMono(b []byte, abv, v1, v2 string) {
 	emit("M "+v.name+" "+hexB(b)+" "+hexS(abv)+" "+hexS(v1)+" "+hexS(v2), guard(func() string {
